@@ -119,7 +119,9 @@ def compare_scenario(ctx, pid, scn, sr, inputs_list, concs, report):
             # the input reaches an instruction of the EVM that is outside the model (BLOBHASH, BLOBBASEFEE, SELFDESTRUCT):
             # what follows is unexplored, so the run must say so -- a stuck path covering the input
             ctx.count("concrete:reaches-unmodelled-instruction")
-            if not undecided and not any(p.kind.startswith("stuck:") for _, p, _ in covering):
+            # (an input covered by no path at all falls under the general uncovered-input rule below, which honours
+            # the loop-bound / depth flags)
+            if covering and not undecided and not any(p.kind.startswith("stuck:") for _, p, _ in covering):
                 report("C02", "uncovered:unmodelled-instruction-not-reported",
                        f"the input reaches the unmodelled instruction {conc.halt.split(':')[1]} but no stuck path reports it "
                        f"(covering paths: {[p.kind for _, p, _ in covering]})", base_replay)
